@@ -43,6 +43,9 @@ var solvers = []solverSpec{
 }
 
 var cacheDir = "/verif/.cache"
+
+// retries of undecided obligations run one at a time
+var retryMu sync.Mutex
 var scratchDir string
 var cacheMu sync.Mutex
 var qCounter int64
@@ -205,6 +208,17 @@ func Solve(text string, quickT, slowT int, wantModel bool) Verdict {
 		cancel()
 		last.Seconds += v.Seconds
 		v = last
+		if v.Status != "unsat" && v.Status != "sat" && v.Status != "error" {
+			// nobody decided it within the portfolio timeout, possibly because the machine is loaded:
+			// one more attempt, alone and with three times the budget, before it is reported as undecided
+			retryMu.Lock()
+			r := runOne(ctx, solvers[0], text, 3*slowT, wantModel)
+			retryMu.Unlock()
+			r.Seconds += v.Seconds
+			if r.Status == "unsat" || r.Status == "sat" {
+				v = r
+			}
+		}
 	}
 	if v.Status == "unsat" || v.Status == "sat" {
 		cacheMu.Lock()
